@@ -522,6 +522,8 @@ Definition site_table : list site := [
   St "schema.py" "walk_graphql_files" "listing" "path.glob('**/*')" SkSorted
     "the only caller sorts the paths (load_dir)";
   St "settings.py" "ClientSettings" "ambient" "Path.cwd()" SkInput "default target_package_path";
+  St "utils.py" "<module>" "formatter" "ISORT_CONFIG = isort.Config(src_paths=())" SkPureText
+    "what makes isort a function of its text: no source path";
   St "utils.py" "ast_to_str" "formatter" "fix_code(code, remove_all_unused_imports=True)" SkPureText "autoflake";
   St "utils.py" "ast_to_str" "formatter" "isort.code(code, config=ISORT_CONFIG)" SkPureText
     "since f6e5e03: Config(src_paths=()) (layout)";
@@ -635,6 +637,7 @@ Definition run_nondet (e : sexp) : sexp :=
                     L [L (map (fun p => L [A (fst p); sStrs (snd p)]) imps); sStrs moved] :: go r st'
                 end) h s0)
       | _, _ => sErr "procstate" end
+  | L [A "stinitial"] => L (map (fun p => L [A (fst p); sStrs (snd p)]) st_initial)
   | L [A "downstream"] =>
       L (map (fun d => let '((f, fn, c, e), (f2, fn2, e2)) := d in
                        L [L [A f; A fn; A c; A e]; L [A f2; A fn2; A e2]]) downstream)
